@@ -310,6 +310,16 @@ def run_spec(spec):
                 with run.slow_lock:
                     run.delivering -= 1
 
+    if spec.get('prior_exit'):
+        # the manager has been through an exit before (an earlier batch of work that is over: here an empty one) and is used again
+        try:
+            if spec['prior_exit'] == 'with':
+                with mgr:
+                    pass
+            else:
+                mgr.shutdown()
+        except BaseException as e:  # noqa
+            log.add('prior_exit.raised', exc=repr(e))
     sth = threading.Thread(target=submit_all, name='vf-crt-submit', daemon=True)
     cths = [threading.Thread(target=completer, name=f'vf-crt-thread{k}', daemon=True) for k in range(spec.get('crt_threads', 1))]
     sth.start()
@@ -624,6 +634,10 @@ def gen_cases(tier, seed):
                 cases.append({'seed': rng.randrange(1 << 30), 'permits': n + 1, 'transfers': ts, 'order': 'fifo', 'family': 'exit-barrier',
                               'exit': rng.choice(['shutdown', 'with']), 'crt_threads': rng.choice([2, 3]),
                               'window': {'file': 'crt.py', 'line': line[1], 'nth': nth, 'action': 'pause', 'name': f'crt.py:{line[1]}:{line[2]}', 'wait': 0.2}})
+    # a manager that has already been through an exit and is used again
+    for c in cases:
+        if not c.get('window') and rng.random() < 0.1:
+            c['prior_exit'] = rng.choice(['shutdown', 'with'])
     # requests that complete BEFORE make_request() returns (the done chain runs inside the submitting call)
     for c in cases:
         if c.get('window') or c.get('family'):
